@@ -22,7 +22,7 @@ MNext ==
           Touch(k, r, l) /\ E([n |-> "Touch", kind |-> k, r |-> r, l |-> l], Tags("Touch", k, "-", r, l))
     \/ \E f \in FullIDs : Props(f) /\ E([n |-> "Props", f |-> f], Tags("Props", "-", f, "-", 0))
     \/ \E r \in Trackable, l \in Locals : Kill(r, l) /\ E([n |-> "Kill", r |-> r, l |-> l], Tags("Kill", "-", "-", r, l))
-    \/ \E r \in Trackable : Track(r) /\ E([n |-> "Track", r |-> r], {})
+    \/ \E r \in Trackable : Track(r) /\ E([n |-> "Track", r |-> r], Tags("Track", "-", "-", r, 0))
     \/ \E r \in Trackable : Teardown(r) /\ E([n |-> "Teardown", r |-> r], Tags("Teardown", "-", "-", r, 0))
     \/ \E r \in Trackable, l \in ReqLocals, ty \in ReqTypes :
           Request(r, l, ty) /\ E([n |-> "Request", r |-> r, l |-> l, ty |-> ty], {})
